@@ -137,7 +137,11 @@ type Plan struct {
 
 	Ops     []Op
 	Updates []*UpdSpec
-	Stale   *StaleSpec // family stale-rewind only
+	Stale   *StaleSpec  // family stale-rewind only
+	Opaque  *OpaqueSpec // family opaque-spend only
+	// OpaquePct > 0: the history was generated with that share of inputs from
+	// which the spent script cannot be recovered (chaingen OpaqueSpendPct).
+	OpaquePct int
 
 	// planning state
 	rng     *rand.Rand
@@ -163,6 +167,9 @@ var genesisTime = time.Unix(1_700_000_000, 0)
 
 // MakePlan builds case number idx of the run with the given seed.
 func MakePlan(seed int64, idx int) *Plan {
+	if idx >= OpaqueBase {
+		return makeOpaquePlan(seed, idx-OpaqueBase)
+	}
 	if idx >= StaleBase {
 		return makeStalePlan(seed, idx-StaleBase)
 	}
@@ -183,9 +190,15 @@ func MakePlan(seed int64, idx int) *Plan {
 	if rng.Intn(5) == 0 {
 		p.Pace = chaingen.PaceMixed
 	}
+	// Every fifth history: 35% of the inputs do not let the spent script be
+	// recovered (no extra draw from rng: the other histories are unchanged).
+	if idx%5 == 3 {
+		p.OpaquePct = 35
+	}
 	p.G = chaingen.NewGen(chaingen.Config{
 		Seed: rng.Int63(), Preset: chaingen.PresetNoRetarget,
 		GenesisTime: genesisTime, Now: genesisTime.Add(30 * 24 * time.Hour), WithBlocks: true,
+		OpaqueSpendPct: p.OpaquePct,
 	})
 	p.Ntfn = "filtered"
 	if rng.Intn(3) == 0 {
